@@ -12,6 +12,11 @@
      Const s        ers.Error constant (a string; compared by value; s = 0 is the empty string "")
      Ptr id         a pointer error without methods (errors.New / fmt.Errorf without %w), compared by address
      Typed ty id    an error of user type number ty (target of errors.As), compared by (ty,id)
+     TypedU ty id   an error of an UNCOMPARABLE user type ty (a slice- or map-based type) whose contents are id and
+                    which has its own method  Is(target) = target has the same type and equal contents.
+                    Go's == on two such values of the same type PANICS; errors.Is guards its == with
+                    reflectlite.TypeOf(target).Comparable() (standard library, trusted), so a TypedU is only ever
+                    matched through its Is method
      Wrap1 tag e    fmt.Errorf("...%w", e): implements Unwrap() error; tag = identity of the wrapper
      Multi tag es   errors.Join(es...) or any type with Unwrap() []error (es may contain Nil for user types)
      Stk tag n es   *ers.Stack; tag = identity of the object; n = its count field (maintained on the node Push is
@@ -31,13 +36,20 @@ Inductive err :=
 | Const (s : Z)
 | Ptr (id : Z)
 | Typed (ty id : Z)
+| TypedU (ty id : Z)
 | Wrap1 (tag : Z) (e : err)
 | Multi (tag : Z) (es : list err)
 | Stk (tag : Z) (n : Z) (es : list err).
 
 Definition is_nil (e : err) : bool := match e with Nil => true | _ => false end.
 
-(* Go's == on two error interface values of the universe (same dynamic type and equal value / same address). *)
+(* reflectlite.TypeOf(e).Comparable() *)
+Definition comparable (e : err) : bool := match e with TypedU _ _ => false | _ => true end.
+
+(* Go's == on two error interface values of the universe (same dynamic type and equal value / same address).
+   Different dynamic types compare false without looking at the values; two TypedU of the same type would panic:
+   that comparison is never evaluated by the code modelled here (errors.Is guards it, nothing else compares),
+   and is given the value false. *)
 Definition same (a b : err) : bool :=
   match a, b with
   | Nil, Nil => true
@@ -201,10 +213,15 @@ Definition chain_is (f : err -> bool) : list err -> bool :=
            end
     end.
 
+(* the Is method of the uncomparable user types: same type and equal contents *)
+Definition typedu_is (ty id : Z) : bool :=
+  match t with TypedU ty' id' => (ty =? ty') && (id =? id') | _ => false end.
+
 Fixpoint is_ (e : err) : bool :=
-  same e t ||
+  (comparable t && same e t) ||                  (* if targetComparable && err == target *)
   match e with
   | Const s => const_is s
+  | TypedU ty id => typedu_is ty id
   | Wrap1 _ x => if is_nil x then false else is_ x
   | Multi _ es => existsb is_ es
   | Stk _ _ es => chain_is is_ es
@@ -229,6 +246,7 @@ Definition assignable (e : err) : bool :=
   match e, k with
   | Const _, KConst => true
   | Typed ty _, KTyped ty' => ty =? ty'
+  | TypedU ty _, KTyped ty' => ty =? ty'
   | _, _ => false
   end.
 
@@ -318,6 +336,60 @@ Definition coll_resolve (tag : Z) (c : coll) : err :=
 
 Definition coll_adds (c : coll) (es : list err) : coll := fold_left coll_add es c.
 
+(* ------------------------------------------------------------------ ers.Is, ers.FilterExclude (ers.go, filter.go) *)
+
+(* func Is(err error, targets ...error) bool { for _, target := range targets {
+     if err == nil && target != nil { continue }; if errors.Is(err, target) { return true } }; return false } *)
+Definition ers_is (e : err) (targets : list err) : bool :=
+  existsb (fun t => if is_nil e && negb (is_nil t) then false else go_is e t) targets.
+
+(* func FilterExclude(exclusions ...error) Filter {
+     if len(exclusions) == 0 { return FilterNoop() }
+     return FilterCheck(func(err error) bool { return Ok(err) || Is(err, exclusions...) }) }
+   func FilterCheck(ep) Filter { return func(err error) error { if ep(err) { return nil }; return err } }
+   All or nothing: an aggregate is dropped as a whole as soon as ANY of its constituents is excluded. *)
+Definition filter_exclude (excl : list err) (e : err) : err :=
+  match excl with
+  | [] => e
+  | _ => if ok e || ers_is e excl then Nil else e
+  end.
+
+(* ------------------------------------------------------------------ erc.Consume / erc.Stream (helpers.go) *)
+
+(* context.Canceled: one pointer error of the standard library *)
+Definition ctx_canceled_id : Z := 90.
+Definition ctx_canceled : err := Ptr ctx_canceled_id.
+
+(* What the consumed fun.Iterator[error] does on each ReadOne, as scripted by the driver's producer:
+     kind 0  yields the item e (which may be nil: a nil error is a legal item)
+     kind 1  the source fails with the (non-nil, non-terminating) error e: ReadOne does i.AddError(e) and reports EOF
+     kind 2  the producer cancels the consumer's context and yields the item e
+   The iterator keeps its own errors in an ers.Stack (HF.ErrorCollector); AddError = Stack.Push, Close() = Resolve().
+   fun.Iterator itself (ReadOne, Observe) belongs to property C02; its plumbing is transcribed here and trusted:
+     func (i *Iterator[T]) Observe(fn) Worker { return func(ctx) (err error) {
+        defer func() { err = ers.Join(i.Close(), err, ers.ParsePanic(recover())) }()
+        for { item, err := i.ReadOne(ctx)            — ReadOne returns ctx.Err() first when the context has ended
+              switch { case err == nil: fn(item)
+                       case ers.Is(err, io.EOF, ers.ErrCurrentOpAbort): return nil
+                       default: return err } } } }
+   The loop: returns (collector, the iterator's error stack, the error the loop returned). *)
+Fixpoint observe_loop (steps : list (Z * err)) (cancelled : bool) (c : coll) (ist : stack) : coll * stack * err :=
+  if cancelled then (c, ist, ctx_canceled)
+  else match steps with
+       | [] => (c, ist, Nil)                                            (* io.EOF *)
+       | (k, e) :: r =>
+           if k =? 1 then (c, push e ist, Nil)                          (* i.AddError(e); io.EOF *)
+           else observe_loop r (k =? 2) (coll_add c e) ist              (* fn(item) = ec.Add(item) *)
+       end.
+
+(* func Consume(ctx, ec, iter) { ec.Add(iter.Observe(ec.Handler()).Run(ctx)) }
+   pre = the errors registered with iter.AddError before the call.  Stream(ctx, ec, ch) = Consume over
+   fun.ChannelIterator(ch): the same with no AddError and no failing source. *)
+Definition consume (c : coll) (pre : list err) (steps : list (Z * err)) (cancelled : bool) : coll :=
+  match observe_loop steps cancelled c (stack_add stack_zero pre) with
+  | (c1, ist1, e) => coll_add c1 (join 0 [stack_resolve 0 ist1; e; Nil])
+  end.
+
 (* ------------------------------------------------------------------ programs: finite trees of API applications *)
 
 (* What a caller can write (the quantifier of the property).  [eval] runs it on the model above; the Go driver
@@ -327,6 +399,7 @@ Inductive expr :=
 | XConst (s : Z)
 | XPtr (id : Z)
 | XTyped (ty id : Z)
+| XTypedU (ty id : Z)
 | XErrorf (tag : Z) (x : expr)              (* fmt.Errorf("...%w", x) *)
 | XErrorsJoin (tag : Z) (xs : list expr)    (* errors.Join(xs...) *)
 | XMulti (tag : Z) (xs : list expr)         (* user type with Unwrap() []error that keeps its nils *)
@@ -341,7 +414,12 @@ Inductive expr :=
 | XPanicOther (tag id : Z)                  (* ers.ParsePanic(<int>) *)
 | XUnwrap (tag : Z) (x : expr)              (* errors.Unwrap(x) / ers.Unwrap(x): the inner layer; tag = its identity if new *)
 | XJoinRemoveOk (tag : Z) (xs : list expr)  (* ers.Join(ers.RemoveOk([]error{xs...})...) *)
-| XJoinAppend (tag : Z) (xs : list expr).   (* ers.Join(ers.Append(nil, xs...)...) *)
+| XJoinAppend (tag : Z) (xs : list expr)    (* ers.Join(ers.Append(nil, xs...)...) *)
+| XFilterExclude (excl : list expr) (x : expr)   (* ers.FilterExclude(excl...).Run(x) *)
+| XConsume (tag : Z) (cancelled : bool) (adds pre items : list expr) (kinds : list Z).
+    (* ec := &erc.Collector{}; ec.Add(a) for a in adds (through Add / Handler / Check / Collect / When);
+       iter.AddError(p) for p in pre; erc.Consume(ctx, ec, iter) (or erc.Stream) with the scripted source
+       combine kinds items and a context that is already cancelled or not; the value is ec.Resolve() *)
 
 (* fmt.Errorf("%w", nil) has no wrapped operand: it returns a plain *errors.errorString (trusted: fmt) *)
 Definition errorf (tag : Z) (v : err) : err := if is_nil v then Ptr tag else Wrap1 tag v.
@@ -356,6 +434,7 @@ Fixpoint eval (x : expr) : err :=
   | XConst s => Const s
   | XPtr id => Ptr id
   | XTyped ty id => Typed ty id
+  | XTypedU ty id => TypedU ty id
   | XErrorf tag x => errorf tag (eval x)
   | XErrorsJoin tag xs => errors_join tag (map eval xs)
   | XMulti tag xs => Multi tag (map eval xs)
@@ -371,6 +450,10 @@ Fixpoint eval (x : expr) : err :=
   | XUnwrap tag x => unwrap1 tag (eval x)
   | XJoinRemoveOk tag xs => join tag (remove_ok (map eval xs))
   | XJoinAppend tag xs => join tag (remove_ok (map eval xs))
+  | XFilterExclude excl x => filter_exclude (map eval excl) (eval x)
+  | XConsume tag cancelled adds pre items kinds =>
+      coll_resolve tag (consume (coll_adds coll_zero (map eval adds)) (map eval pre)
+                                (combine kinds (map eval items)) cancelled)
   end.
 
 (* ------------------------------------------------------------------ observation helpers (used by Corr) *)
@@ -382,6 +465,7 @@ Definition eid (e : err) : Z :=
   | Const s => s
   | Ptr id => id
   | Typed _ id => id
+  | TypedU _ id => id
   | Wrap1 g _ => g
   | Multi g _ => g
   | Stk g _ _ => g
